@@ -298,6 +298,9 @@ def do_BILP(ctx, rng, w, bad, call):
                 bad("instance-follows-the-callers-arrays", "after the caller edited the arrays it built the instance from, is_solution_valid(%r)=%r" % (x, got))
     ctx.count("solve_bruteforce-calls")
     if rng.random() < 0.5:
+        if rng.random() < 0.6:
+            call("solve_bruteforce", p.solve_bruteforce, A=B / 64.0, B=B)      # (an earlier call with other weights, see GraphPartitioning)
+            ctx.cat("solve_bruteforce:earlier-call-with-other-weights")
         s = call("solve_bruteforce", p.solve_bruteforce, A=thr + 1, B=B)
     else:
         s = call("solve_bruteforce", p.solve_bruteforce, thr + 1, B)        # the same weights spelled positionally
@@ -473,6 +476,11 @@ def do_GraphPartitioning(ctx, rng, w, bad, call):
             if bool(got) != (sum(z) == 0):
                 bad("is_solution_valid-disagrees", "is_solution_valid(%r)=%r, balanced? %r" % (arg2, got, sum(z) == 0))
     ctx.count("solve_bruteforce-calls")
+    if rng.random() < 0.5:
+        # an earlier call on the same instance with OTHER weights (a constraint weight far too small: its answer is whatever
+        # minimises that model); the call below must answer for its own weights
+        call("solve_bruteforce", p.solve_bruteforce, A=B / 64.0, B=B)
+        ctx.cat("solve_bruteforce:earlier-call-with-other-weights")
     # the generic brute force goes through the QUBO: a weight strictly above the threshold is needed for the guarantee
     s = call("solve_bruteforce", p.solve_bruteforce, A=wl[-1][1][0], B=B)
     if len(s[0]) != len(s[1]) or s[0] | s[1] != set(verts) or abs(cut(s) - best) > 1e-9:
